@@ -76,12 +76,14 @@ class Node:
     kind_slots: int = 1  # invocations 0..slots-1 get their own kind variable; later ones reuse the last
     labels: Tuple[str, ...] = ()  # switch decider: labels it may return
     unknown_label: bool = False  # ... plus a label matching no case
+    none_label: bool = False  # ... plus None as the returned label
     label_slots: int = 1
     want_max: int = 0  # recurrent dest: asks for next_iteration `want` times, want in [0, want_max]
     attempts: Optional[int] = None
     delay: Optional[int] = None
     exceptions: Optional[Tuple[str, ...]] = None  # names: 'E1', 'E2'
     use_default: bool = False
+    generic: bool = False  # declared through build_node(<generic base>, ...) instead of a plain class
     base: int = 0  # filled by Spec
 
 
@@ -241,15 +243,19 @@ class Behaviour:
             return self.fixed[nm]
         return nd.kinds[self.sym.choice(nm, len(nd.kinds))]
 
-    def label(self, nd: Node, k: int) -> str:
-        n = len(nd.labels) + (1 if nd.unknown_label else 0)
+    def label(self, nd: Node, k: int) -> Any:
+        n = len(nd.labels) + (1 if nd.unknown_label else 0) + (1 if nd.none_label else 0)
         slot = min(k, nd.label_slots - 1)
         nm = self._n("%s.label%d" % (nd.name, slot))
         if nm in self.fixed:
             i = self.fixed[nm]
         else:
             i = self.sym.choice(nm, n)
-        return nd.labels[i] if i < len(nd.labels) else "?nocase"
+        if i < len(nd.labels):
+            return nd.labels[i]
+        if nd.unknown_label and i == len(nd.labels):
+            return "?nocase"
+        return None
 
     def want(self, nd: Node) -> Any:
         if nd.want_max <= 0:
@@ -283,6 +289,20 @@ def node_value(spec: Spec, nd: Node, base: Any, kwargs: Dict[str, Any], bad: Lis
     return v
 
 
+_MARKED: List[Any] = []
+
+
+def reset_instance_marks() -> None:
+    """Called by the driver before every harness invocation (symbolic or concrete), so that instance-reuse detection
+    does not depend on what earlier paths did (a caching engine would keep instances alive across paths)."""
+    for inst in _MARKED:
+        try:
+            inst._verif_used = False
+        except Exception:  # noqa: BLE001
+            pass
+    del _MARKED[:]
+
+
 class RunCtx:
     """Per-run observation log + behaviour; reached by bodies through ``CUR``."""
 
@@ -299,6 +319,7 @@ class RunCtx:
         self.raised: List[BaseException] = []
         self.bad: List[Any] = []
         self.reused: List[str] = []
+        self.blocking: List[str] = []  # blocking calls made on the event-loop thread by engine code
         self.defaults: List[Tuple[str, Dict[str, Any], Any]] = []
         self.events: List[Tuple[int, str, Any, Any]] = []
         self.saves: List[Tuple[int, str, Any]] = []
@@ -336,6 +357,7 @@ class RunCtx:
                 self.reused.append(node)
             try:
                 instance._verif_used = True
+                _MARKED.append(instance)
             except Exception:  # noqa: BLE001
                 pass
         k = self.count.get(node, 0)
@@ -460,7 +482,16 @@ def build_classes(spec: Spec) -> Dict[str, type]:
             ns["use_default"] = True
         ns["get_default"] = _make_default(nd.name)
         base = RecurrentProcessor if nd.recurrent else ProcessorBase
-        classes[nd.name] = type(nd.name, (base,), ns)
+        if nd.generic:
+            from ml_pipeline_engine.node import build_node
+
+            gbase = type("GenericBase_" + nd.name, (base,), dict(ns, name="generic_" + nd.name))
+            attrs = {k: v for k, v in ns.items() if k in ("tags", "attempts", "delay", "exceptions", "use_default")}
+            cls = build_node(gbase, node_name=nd.name, class_name="Generic_" + nd.name, attrs=attrs)
+            classes[nd.name] = cls
+            procs[nd.name] = cls.process
+        else:
+            classes[nd.name] = type(nd.name, (base,), ns)
     # annotations (second pass: marks reference classes)
     for nd in spec.nodes:
         ann: Dict[str, Any] = {}
@@ -477,7 +508,10 @@ def build_classes(spec: Spec) -> Dict[str, type]:
                                                  max_iterations=m.max_iter)
         if nd.takes_ad:
             ann["additional_data"] = Optional[Any]
-        procs[nd.name].__annotations__ = ann
+        if nd.generic:
+            procs[nd.name].__annotations__.update(ann)  # what build_node(**target_dependencies) does
+        else:
+            procs[nd.name].__annotations__ = ann
     return classes
 
 
